@@ -352,6 +352,20 @@ func (s *session) startServer() {
 			}
 			return ctx2, nil, nil
 		}
+	case "detached":
+		// a context that does NOT descend from the request context: only close() / stop cancel the operations
+		ws.InitFunc = func(ctx context.Context, p transport.InitPayload) (context.Context, *transport.InitPayload, error) {
+			s.logEv(Event{E: "InitFn", M: "accept"}, nil)
+			det := context.Background()
+			if cfg.Reason {
+				det = transport.AppendCloseReason(det, "server says bye")
+			}
+			ctx2, cancel := context.WithCancel(det)
+			s.mu.Lock()
+			s.srvCancel = cancel
+			s.mu.Unlock()
+			return ctx2, nil, nil
+		}
 	case "reject":
 		ws.InitFunc = func(ctx context.Context, p transport.InitPayload) (context.Context, *transport.InitPayload, error) {
 			s.logEv(Event{E: "InitFn", M: "reject"}, nil)
